@@ -110,12 +110,22 @@ def bsAmericanBinaryPrice (s m t v : α) : Except Err α := do
   let p := ncdf d2 + exp s * ncdf d1
   pure (if m < 0 then p else 1)
 
-def bsAmericanBinaryDelta (s m t v k : α) : Except Err α := do
+/-- as shipped at the pinned commit (defect F8: `0/0 = nan` at `t = 0` / `v = 0`) -/
+def bsAmericanBinaryDeltaOld (s m t v k : α) : Except Err α := do
   let spot := exp s * k
   let d1 ← bsD1 s t v
   let d2 ← bsD2 s t v
   let w := v * sqrt t
   let p := npdf d2 / (spot * w) + ncdf d1 / k + npdf d1 / (k * w)
+  pure (if m < 0 then p else 0)
+
+/-- after the `fix:` commit: the two `npdf / (… * w)` terms use the `0/0 ↦ 0` guard -/
+def bsAmericanBinaryDelta (s m t v k : α) : Except Err α := do
+  let spot := exp s * k
+  let d1 ← bsD1 s t v
+  let d2 ← bsD2 s t v
+  let w := v * sqrt t
+  let p := guardedDiv (npdf d2) (spot * w) + ncdf d1 / k + guardedDiv (npdf d1) (k * w)
   pure (if m < 0 then p else 0)
 
 def bsAmericanBinaryGamma (s m t v k : α) : Except Err α := do
@@ -135,7 +145,8 @@ def bsAmericanBinaryTheta (s m t v k : α) : Except Err α := do
   let g ← bsAmericanBinaryGamma s m t v k
   pure (thetaOfGamma g (exp s * k) v)
 
-def bsLookbackPrice (s m t v k : α) : Except Err α := do
+/-- as shipped at the pinned commit (defect F8: `d1 * ncdf d1 = ∞ · 0 = nan` at `t = 0` / `v = 0`) -/
+def bsLookbackPriceOld (s m t v k : α) : Except Err α := do
   let spot := exp s * k
   let mx := exp m * k
   let d1 ← bsD1 s t v
@@ -145,6 +156,21 @@ def bsLookbackPrice (s m t v k : α) : Except Err α := do
   let w := v * sqrt t
   let price0 := spot * (ncdf d1 + w * (d1 * ncdf d1 + npdf d1)) - k * ncdf d2
   let price1 := spot * (ncdf m1 + w * (m1 * ncdf m1 + npdf m1)) - k + mx * (1 - ncdf m2)
+  pure (if mx < k then price0 else price1)
+
+/-- after the `fix:` commit: `w·d1` is written `s + w²/2` and `w·m1` as `(s − m) + w²/2` -/
+def bsLookbackPrice (s m t v k : α) : Except Err α := do
+  let spot := exp s * k
+  let mx := exp m * k
+  let d1 ← bsD1 s t v
+  let d2 ← bsD2 s t v
+  let m1 ← bsD1 (s - m) t v
+  let m2 ← bsD2 (s - m) t v
+  let w := v * sqrt t
+  let wd1 := s + w * w / 2
+  let wm1 := (s - m) + w * w / 2
+  let price0 := spot * (ncdf d1 + wd1 * ncdf d1 + w * npdf d1) - k * ncdf d2
+  let price1 := spot * (ncdf m1 + wm1 * ncdf m1 + w * npdf m1) - k + mx * (1 - ncdf m2)
   pure (if mx < k then price0 else price1)
 
 end
